@@ -158,6 +158,12 @@ M("c13.twin.dsa.spki.ints", "C13", "lib/Crypto/PublicKey/DSA.py",
   "    dss = DerSequence().decode(params or emb_params, only_ints_expected=True, nr_elements=3)\n    p, q, g = dss[0], dss[1], dss[2]\n", twin=True)
 M("c13.twin.asn1.guard", "C13", ASN1, "                    if len(encoded_length) == 0:\n", "                    if not encoded_length:\n", twin=True)
 
+# ---------------------------------------------------------------- C03 object-level new()
+M("c03.fresh.kmac256.revert", "C03", "lib/Crypto/Hash/KMAC128.py", "        if self._rate == 136:\n            from . import KMAC256\n            return KMAC256.new(**kwargs)\n\n", "", "K|fresh.KMAC256")
+M("c03.fresh.sha512.truncate", "C03", "lib/Crypto/Hash/SHA512.py", "return SHA512Hash(data, self._truncate)", "return SHA512Hash(data, None)", "K|fresh.SHA512")
+M("c03.fresh.turboshake.domain", "C03", "lib/Crypto/Hash/TurboSHAKE128.py", "return type(self)(self._capacity, self._domain, data)", "return type(self)(self._capacity, 0x1F, data)", "K|fresh.TurboSHAKE128.7")
+M("c03.fresh.turboshake.capacity", "C03", "lib/Crypto/Hash/TurboSHAKE128.py", "return type(self)(self._capacity, self._domain, data)", "return type(self)(32, self._domain, data)", "K|fresh.TurboSHAKE256")
+
 # ---------------------------------------------------------------- C17 (hand-written successors of obsolete seeds)
 M("c17.ecws.p384.ntables", "C17", "src/ec_ws.c",
   "    if (bw.nr_windows > p384_n_tables)\n", "    if (bw.nr_windows > p521_n_tables)\n", "M|c|ec_ws.generator_tables")
